@@ -172,6 +172,9 @@ func allProps() []PropSpec {
 				{Func: "ZZ_C10_H1", Pkg: "pkg/protocol/http1", Quick: map[string]int{"M": 2}, Thorough: map[string]int{"M": 3}, Covers: []string{"reached-assert", "a-connection-was-reused"}, Unwind: 5000, MaxSteps: 4000000,
 					GoPolicy: map[string]string{"(*github.com/cloudwego/hertz/pkg/protocol/http1.HostClient).connsCleaner": "skip"},
 					Note: "the idle-connection reaper goroutine is not run (no scheduler, no real time)"},
+				{Func: "ZZ_C10_H2", Pkg: "pkg/protocol/http1", Covers: []string{"reached-assert", "waited-and-timed-out"}, Unwind: 5000,
+					GoPolicy: map[string]string{"(*github.com/cloudwego/hertz/pkg/protocol/http1.HostClient).connsCleaner": "skip"},
+					Note: "wait-for-free-connection path, sequentially: the waiter's timer fires when nothing else can happen; no waiter left behind; released connection reused"},
 			},
 			Assumptions: []string{"sequential histories only: M calls one after another against a scripted peer; all goroutine interleavings, the waiter queue under contention, real timeouts and 'returns no later than' clauses are outside this technique", "fault alphabet per exchange: ok keep-alive, ok + Connection: close, close before first byte, close mid-header, close mid-body, dial error, write error, context already cancelled; MaxConns 1..2; MaxConnWaitTimeout = 0; MaxConnDuration 0 or expired"},
 		},
